@@ -34,6 +34,12 @@ CHECKS = {
     text="All 156 points of {fn x 5 requested visibilities x 3 fn visibilities, mod x 3 x 2, trait (delegation-target trait) x 5} x 6 access sites inside a nested module tree are compiled as one probe each: naming the trait must succeed exactly where the requested visibility allows it, and must be rejected with a privacy/resolution error everywhere else (a 'compiles' on a must-fail probe is confirmed in isolation). Complete in the quick tier.",
     note="Exhaustive for the stated lattice only; the other-crate site is not built (pub vs pub(crate) are distinguished by no probe); module mode with pub(super)/pub(in) is a documented don't-care.",
     design="§2 C13"),
+ "C14": dict(
+    technique="property-based differential testing with a counting global allocator: generated trait call chains vs mirror chains of plain fns; token scan of recorded expansions for dyn/Box",
+    engine="E2",
+    text="Generated call chains (depth 1..6, async prefix, single and module fns, ending in an entraited fn, a statically delegated leaf trait or a statically delegated impl block) whose bodies allocate a known number of times are compiled and run with a counting #[global_allocator]; allocations and results of the trait chain must equal those of a mirror chain of plain fns (after warm-up). Every recorded real expansion is scanned: no `dyn`/`Box` token that the input lacks. 300 programs quick / 5000 thorough.",
+    note="Detects heap allocation and dyn/Box tokens, not every conceivable dynamic dispatch (e.g. fn pointers); debug builds, so neither side is optimised.",
+    design="§2 C14"),
  "C15": dict(
     technique="property-based testing + coverage-guided fuzzing of (attribute tokens, item) pairs; oracle: no panic, output parses, documented misuses get their own diagnostic",
     engine="E1+E3",
